@@ -16,6 +16,7 @@ import (
 	"net/http/httptest"
 	"strconv"
 	"strings"
+	"sync"
 	"sync/atomic"
 	"time"
 
@@ -100,14 +101,40 @@ func (e *env) post(b []byte) *httptest.ResponseRecorder {
 func main() {
 	run := ev.Start("C10", "exploration")
 	defer run.Finish()
-	run.Rule("unit = one witness (1-3 logs, production key pair, drawn store) driven only through the add-checkpoint handler by 10-40 requests: bodies written by an independent writer for every verdict class (generated hostile requests as in C01) plus malformed bodies (bad old line, bad base64, missing separator, checkpoint without newline, empty); status/content-type/body/state are judged against the reference model. Separate units judge the rate limiter (limit 0, 1e9, and bursts at 2/s and 5/s judged by inequalities on measured elapsed time). evaluations = HTTP requests; nontrivial = distinct (expected status, model class, stored?, malformed form, store)")
-	run.Assume("in-process ServeHTTP; the TLS 1.3 + HTTP/2 reverse connection and the 16 KiB cap are not exercised by this tier", "fractional rate limits are not judged")
+	run.Rule("unit = one witness (1-3 logs, production key pair, drawn store) driven only through the add-checkpoint handler by 10-40 requests: bodies written by an independent writer for every verdict class (generated hostile requests as in C01) plus malformed bodies (bad old line, bad base64, missing separator, checkpoint without newline, empty); status/content-type/body/state are judged against the reference model. The same request classes are sent end to end: omniwitness.Main connects to a stub bastion (TLS 1.3, ALPN bastion/0, client certificate carrying the configured key), the stub then speaks HTTP/2 as the client over the accepted connection, 60 requests per session incl. bodies over the 16 KiB cap. Separate units judge the rate limiter (limit 0, 1e9, and bursts at 2/s and 5/s judged by inequalities on measured elapsed time). evaluations = HTTP requests; nontrivial = distinct (expected status, model class, stored?, malformed form, store)")
+	run.Assume("end-to-end sessions observe the witness state through the service's own HTTP read API", "fractional rate limits are not judged")
 	for _, s := range []string{"200", "400_malformed", "400_old_too_large", "403", "404", "409_stale", "409_root_mismatch", "422", "429"} {
 		run.Floor("expect:"+s, 100)
 	}
 	dir := run.Scratch()
+	if err := setupTLS(dir); err != nil {
+		run.Inconclusive("cannot create the stub bastion certificate: " + err.Error())
+		return
+	}
+	run.Floor("e2e_sessions", 1)
+	var e2eDone sync.WaitGroup
+	e2eDone.Add(1)
+	go func() { // end-to-end sessions run beside the in-process units (each waits ~5 s for the backend's reconnect ticker)
+		defer e2eDone.Done()
+		run.Units("e2e", run.Pick(2, 24), 8, func(unit int64, r *rand.Rand) { e2e(run, unit, r, dir) })
+	}()
+	defer e2eDone.Wait()
 	run.Units("seq", run.Pick(1200, 30000), 0, func(unit int64, r *rand.Rand) { sequence(run, unit, r, dir) })
 	run.Units("limit", run.Pick(24, 200), 8, func(unit int64, r *rand.Rand) { limiter(run, unit, r, dir) })
+}
+
+// target is what a request sequence is driven against: the in-process handler or the
+// end-to-end path through a stub bastion.
+type target struct {
+	u       *gen.Universe
+	key     refnote.Key
+	post    func(b []byte) (int, string, string)
+	snap    func() *wit.Snapshot
+	updates func() int64 // witness invocations so far (nil: not observable)
+	model   map[string]refwitness.LogState
+	sess    map[int]*gen.Session
+	kind    string
+	mode    string
 }
 
 func sequence(run *ev.Run, unit int64, r *rand.Rand, dir string) {
@@ -117,14 +144,23 @@ func sequence(run *ev.Run, unit int64, r *rand.Rand, dir string) {
 		return
 	}
 	defer e.rn.Store.Close()
-	u := e.rn.U
+	t := &target{u: e.rn.U, key: e.key, snap: e.rn.Snap, updates: e.cw.updates.Load, model: e.rn.Model, sess: e.rn.Sess, kind: e.rn.Store.Kind, mode: "inproc",
+		post: func(b []byte) (int, string, string) {
+			rec := e.post(b)
+			return rec.Code, rec.Header().Get("Content-Type"), rec.Body.String()
+		}}
+	drive(run, unit, r, t, 10+r.IntN(31))
+}
+
+// drive sends n generated requests to the target and judges every response.
+func drive(run *ev.Run, unit int64, r *rand.Rand, t *target, n int) {
+	u := t.u
 	var trace []string
-	snap := e.rn.Snap()
-	n := 10 + r.IntN(31)
+	snap := t.snap()
 	for i := 0; i < n; i++ {
 		l := u.Logs[r.IntN(len(u.Logs))]
-		v := e.rn.View(l, snap)
-		q := u.Next(r, l, v, e.rn.Sess[l.Idx])
+		v := wit.ViewOf(l, snap)
+		q := u.Next(r, l, v, t.sess[l.Idx])
 		malformed := ""
 		old := strconv.FormatUint(q.OldSize, 10)
 		b := body(old, q.Proof, q.CP)
@@ -174,7 +210,7 @@ func sequence(run *ev.Run, unit int64, r *rand.Rand, dir string) {
 			expect = "404"
 		default:
 			auth, bodyCP := target.Judge(q.CP)
-			pre = e.rn.Model[target.ID]
+			pre = t.model[target.ID]
 			mr := refwitness.Req{Known: true, Authentic: auth, OldSize: q.OldSize, Proof: q.Proof}
 			if bodyCP != nil {
 				mr.Size, mr.Root = bodyCP.Size, bodyCP.Root
@@ -199,68 +235,76 @@ func sequence(run *ev.Run, unit int64, r *rand.Rand, dir string) {
 				expect = "422"
 			}
 		}
-		calls := e.cw.updates.Load()
-		rec := e.post(b)
-		after := e.rn.Snap()
+		var calls int64
+		if t.updates != nil {
+			calls = t.updates()
+		}
+		if t.mode == "e2e" && i%11 == 5 {
+			// over the 16 KiB cap of the reverse connection: must be refused as malformed
+			b = append(b, bytes.Repeat([]byte("A"), 17*1024)...)
+			malformed, expect, judgeStatus = "over_16KiB", "400_malformed", true
+		}
+		code, ctype, respBody := t.post(b)
+		after := t.snap()
 		run.Count("evaluations")
 		if judgeStatus {
 			run.Count("expect:" + expect)
 		}
-		trace = append(trace, fmt.Sprintf("%d: %s malformed=%q -> expect %s got %d", i, q, malformed, expect, rec.Code))
+		trace = append(trace, fmt.Sprintf("%d: %s malformed=%q -> expect %s got %d", i, q, malformed, expect, code))
 		stored := "stored"
 		if !pre.Has {
 			stored = "nothing"
 		}
-		run.Distinct("nontrivial", fmt.Sprintf("%s/%s/%s/%s/%s", expect, class, stored, malformed, e.rn.Store.Kind))
-		detail := map[string]any{"trace": trace, "body": string(b), "status": rec.Code, "content_type": rec.Header().Get("Content-Type"), "resp_body": rec.Body.String(), "expect": expect, "class": class, "store": e.rn.Store.Kind}
+		run.Distinct("nontrivial", fmt.Sprintf("%s/%s/%s/%s/%s", expect, class, stored, malformed, t.kind+"/"+t.mode))
+		detail := map[string]any{"trace": trace, "body": string(b), "status": code, "content_type": ctype, "resp_body": respBody, "expect": expect, "class": class, "store": t.kind + "/" + t.mode}
 		wantCode, _ := strconv.Atoi(expect[:3])
 		key := func(k string) string {
-			return fmt.Sprintf("%s;expect=%s;got=%d;stored=%s", k, expect, rec.Code, stored)
+			return fmt.Sprintf("%s;expect=%s;got=%d;stored=%s", k, expect, code, stored)
 		}
-		if judgeStatus && rec.Code != wantCode {
-			run.Violate(key("wrong_status"), fmt.Sprintf("expected %s for class %q, endpoint answered %d", expect, class, rec.Code), unit, detail)
+		if judgeStatus && code != wantCode {
+			run.Violate(key("wrong_status"), fmt.Sprintf("expected %s for class %q, endpoint answered %d", expect, class, code), unit, detail)
 		}
-		switch rec.Code {
+		switch code {
 		case 200, 400, 403, 404, 409, 422, 429, 500:
 		default:
-			run.Violate(key("undocumented_status"), fmt.Sprintf("endpoint answered %d", rec.Code), unit, detail)
+			run.Violate(key("undocumented_status"), fmt.Sprintf("endpoint answered %d", code), unit, detail)
 		}
-		if rec.Code != 200 && !after.Equal(snap) {
-			run.Violate(key("state_changed_on_non_200"), fmt.Sprintf("status %d but the witness state changed", rec.Code), unit, detail)
+		if code != 200 && !after.Equal(snap) {
+			run.Violate(key("state_changed_on_non_200"), fmt.Sprintf("status %d but the witness state changed", code), unit, detail)
 		}
-		if rec.Code == 200 {
-			why := check200(e, target, q.CP, rec, after)
+		if code == 200 {
+			why := check200(t.key, target, q.CP, respBody, after)
 			if why != "" {
 				run.Violate("bad_200;"+strings.SplitN(why, ":", 2)[0], "200 but "+why, unit, detail)
 			}
 		}
-		if rec.Code == 409 && judgeStatus && expect == "409_stale" {
-			cur := e.rn.View(target, after)
+		if code == 409 && judgeStatus && expect == "409_stale" {
+			cur := wit.ViewOf(target, after)
 			want := fmt.Sprintf("%d\n", cur.Size)
-			if ct := rec.Header().Get("Content-Type"); ct != "text/x.tlog.size" || rec.Body.String() != want {
-				run.Violate("stale_409_body", fmt.Sprintf("409 for a stale old size must carry text/x.tlog.size and %q; got %q %q", want, ct, rec.Body.String()), unit, detail)
+			if ct := ctype; ct != "text/x.tlog.size" || respBody != want {
+				run.Violate("stale_409_body", fmt.Sprintf("409 for a stale old size must carry text/x.tlog.size and %q; got %q %q", want, ct, respBody), unit, detail)
 			}
 		}
-		if e.cw.updates.Load() != calls && (expect == "400_malformed" || expect == "404") {
+		if t.updates != nil && t.updates() != calls && (expect == "400_malformed" || expect == "404") {
 			run.Violate("witness_invoked_for_unroutable_body", "a malformed/unknown-origin body reached Witness.Update", unit, detail)
 		}
 		if target != nil {
-			vw := e.rn.View(target, after)
-			e.rn.Model[target.ID] = refwitness.LogState{Has: vw.Has, Size: vw.Size, Root: vw.Root}
-			if rec.Code == 200 {
-				e.rn.Sess[target.Idx].LastProof = q.Proof
+			vw := wit.ViewOf(target, after)
+			t.model[target.ID] = refwitness.LogState{Has: vw.Has, Size: vw.Size, Root: vw.Root}
+			if code == 200 {
+				t.sess[target.Idx].LastProof = q.Proof
 			}
 		}
 		snap = after
-		if unit == 0 && i < 3 {
-			run.Sample(map[string]any{"body": string(b[:min(len(b), 220)]), "expect": expect, "status": rec.Code, "resp": rec.Body.String()})
+		if unit == 0 && i < 3 || t.mode == "e2e" && i < 2 {
+			run.Sample(map[string]any{"mode": t.mode, "body": string(b[:min(len(b), 220)]), "expect": expect, "status": code, "resp": respBody})
 		}
 	}
 }
 
 // check200 verifies the 200 clauses: body = cosignature line(s) verifying under the
 // witness's published key over the submitted text; the witness now holds that checkpoint.
-func check200(e *env, target *gen.Log, cp []byte, rec *httptest.ResponseRecorder, after *wit.Snapshot) string {
+func check200(key refnote.Key, target *gen.Log, cp []byte, bs string, after *wit.Snapshot) string {
 	if target == nil {
 		return "no_target: 200 for an origin that is not configured"
 	}
@@ -268,7 +312,6 @@ func check200(e *env, target *gen.Log, cp []byte, rec *httptest.ResponseRecorder
 	if err != nil {
 		return "unparsable_submission: accepted a submission the reference reader cannot parse"
 	}
-	bs := rec.Body.String()
 	if bs == "" || !strings.HasSuffix(bs, "\n") {
 		return "body_shape: body is empty or unterminated"
 	}
@@ -277,7 +320,7 @@ func check200(e *env, target *gen.Log, cp []byte, rec *httptest.ResponseRecorder
 		if err != nil || len(n.Sigs) != 1 {
 			return fmt.Sprintf("body_line_malformed: %q", line)
 		}
-		if ok, _ := e.key.Verify(sub.Text, n.Sigs[0]); !ok {
+		if ok, _ := key.Verify(sub.Text, n.Sigs[0]); !ok {
 			return fmt.Sprintf("body_line_does_not_verify: %q does not verify under the witness key over the submitted text", line)
 		}
 	}
